@@ -269,7 +269,7 @@ func (t *DateTime) SubtractDateTimeSpan(val *DateTimeSpan) *DateTime {
 }
 
 func (t *DateTime) SubtractDateSpan(val DateSpan) *DateTime {
-	return t.ToDateTimeSpan().SubtractDateSpan(val).ToDateTime()
+	return t.AddDateSpan(val.Negate())
 }
 
 func (t *DateTime) SubtractTimeSpan(val TimeSpan) *DateTime {
